@@ -172,6 +172,11 @@ func (s *mainQueueScheduler) forward(sender string, seq uint64) {
 
 		s.remove(tx, seqHeap)
 	}
+
+	// The sender's first transaction may have just become schedulable.
+	if tx, ok := seqHeap.peek(); ok && !isPendingSchedule(tx) && s.isSchedulable(tx, seqHeap) {
+		s.maxHeap.push(tx)
+	}
 }
 
 // handleTxUsed removes the transaction with the given hash and forwards
@@ -264,7 +269,9 @@ func (s *mainQueueScheduler) restoreMaxHeap(sender string, seq uint64) {
 	case current != nil:
 		s.maxHeap.remove(current)
 	case first != nil:
-		s.maxHeap.push(first)
+		if !isPendingSchedule(first) {
+			s.maxHeap.push(first)
+		}
 	default:
 	}
 }
@@ -344,9 +351,10 @@ func (s *mainQueueScheduler) nextSchedulable(tx *mainQueueTransaction) (*mainQue
 //   - No schedule is in progress, and this transaction is the first
 //     pending transaction for the sender.
 //   - A schedule is in progress, and this transaction's sequence number
-//     follows the last scheduled transaction for the same sender.
+//     follows the last scheduled transaction for the same sender (unless
+//     the sender's queue has since been forwarded past that transaction).
 func (s *mainQueueScheduler) isSchedulable(tx *mainQueueTransaction, seqHeap *senderTxHeap) bool {
-	if last, ok := s.scheduled[tx.sender]; ok {
+	if last, ok := s.scheduled[tx.sender]; ok && last >= seqHeap.seq {
 		if last == math.MaxUint64 {
 			return false
 		}
